@@ -33,7 +33,7 @@ func initAllowed(path string) bool {
 		"github.com/datadog/czlib", "vendor/golang.org/x/net/http2/hpack", "math/rand", "math/big":
 		return false
 	}
-	if strings.HasPrefix(path, "google.golang.org/protobuf") || strings.HasPrefix(path, "runtime/") ||
+	if strings.HasPrefix(path, "google.golang.org/protobuf") || strings.HasSuffix(path, "/osmpbf/internal/osmpbf") || strings.HasPrefix(path, "runtime/") ||
 		strings.HasPrefix(path, "internal/") && path != "internal/itoa" && path != "internal/stringslite" ||
 		strings.HasPrefix(path, "crypto/") || strings.HasPrefix(path, "vendor/") || strings.HasPrefix(path, "golang.org/x/net") {
 		return false
